@@ -11,6 +11,7 @@ typedef struct {
   int role, fill;
   unsigned fillarg;  // bits (F_I64 / F_DBLINT / F_RATIO: |ratio| < 2^fillarg), ignored otherwise
   double fscale;     // F_RATIO: values are ratio * fscale (fscale a power of two)
+  uint64_t zero_block;  // if non-zero: each block of zero_block elements is entirely zero with probability 1/4
   size_t bytes, align;
   int is_zvec;       // int64 limb vector with stride padding
   uint64_t n, size, sl;
@@ -93,6 +94,7 @@ typedef struct {
   uint8_t* cap_in;
   uint8_t* cap_out;
   size_t cap_in_bytes, cap_out_bytes;
+  int fpenv_changed;  // MXCSR or the x87 control word differ after the call (hidden state left in the CPU)
   uint64_t u[8];  // the plan's scalar parameters (e.g. divisor exponent, ell)
   double d[2];
 } opres_t;
@@ -105,6 +107,9 @@ typedef struct {
 // never from `prefill` (pattern written to OUT and SCRATCH buffers before the call) or `mis` (byte
 // misalignment selector of every buffer) — so results must not depend on the latter two. Thread-safe.
 void op_exec(const opdef_t* o, const env_t* env, uint64_t seed, int prefill, unsigned mis, unsigned monitors, opres_t* res);
+// runs the named catalogue entries from T threads at once on private data (shared environment) and compares every
+// result with the same call executed alone; returns the number of differing calls (message of the first in msg)
+uint64_t ops_concurrent_check(const char* const* names, int nnames, const env_t* env, int T, int iters, uint64_t seed, char* msg, size_t msglen, uint64_t* calls);
 // counts of memcheck definedness failures observed by MON_VALGRIND (process-wide)
 extern uint64_t ops_valgrind_undefined_outputs;
 
